@@ -154,6 +154,20 @@ def boundary_script(rng, algo, name):
     return Script(name, ops, {"suite": "core"})
 
 
+def forge_script(rng, algo, name):
+    """C02: datagrams sealed by somebody who was never given a session key: under the all-zero / all-ones / a random key, naming every key slot
+    (0 = the agreed key, 1..3 = slots that no key has been rotated into yet), towards both ends, before and after a rotation"""
+    ops = ["cnew " + algo, "seal a " + hx(rng.bytes(9)), "deliver d0 b"]
+    for rnd in range(2):
+        for side in ("a", "b"):
+            for kid in (0, 1, 2, 3, 4, 255):
+                for kind in ("zero", "ff", "rand"):
+                    ops.append("forge %s %d %s %s" % (side, kid, kind, hx(rng.bytes(rng.choice([0, 1, 20])))))
+        ops += ["rotate a 2 1 k2", "rotate b 2 0 k2", "tick a", "tick b"]
+    ops += ["seal a " + hx(rng.bytes(5)), "deliver d1 b"]
+    return Script(name, ops, {"suite": "core"})
+
+
 def core_scripts(tier, rng, focus):
     thorough = tier == "thorough"
     ops = inc_ops(rng.fork("inc"), thorough)
@@ -169,6 +183,7 @@ def core_scripts(tier, rng, focus):
                 yield from window_interleavings(a, d, 5 if thorough and d <= 7 else 3)
     if focus in ("C02", "all"):
         for a in ALGOS:
+            yield forge_script(rng, a, "forge-" + a)
             for n in ([0, 1, 5, 17, 40] if thorough else [0, 5]):
                 yield tamper_script(rng, a, n, "tamper-%s-%d" % (a, n))
             L = list(range(0, 301)) + [rng.range(301, 9000) for _ in range(40 if thorough else 8)] + [9000]
